@@ -637,13 +637,8 @@ func run(sc *scenario, out *bufio.Writer) {
 	}
 	sb.WriteString(" | log ")
 	var tps []tpKey
-	for t, n := range sc.nparts {
-		for p := 0; p < n; p++ {
-			tps = append(tps, tpKey{t, p})
-		}
-	}
-	for tp := range f.logs {
-		if _, ok := sc.nparts[tp.topic]; !ok || tp.part >= sc.nparts[tp.topic] {
+	for tp, l := range f.logs {
+		if len(l) > 0 {
 			tps = append(tps, tp)
 		}
 	}
@@ -652,11 +647,10 @@ func run(sc *scenario, out *bufio.Writer) {
 		if i > 0 {
 			sb.WriteString(";")
 		}
-		l := strings.Join(f.logs[tp], ",")
-		if l == "" {
-			l = "-"
-		}
-		fmt.Fprintf(&sb, "%s/%d %s", tp.topic, tp.part, l)
+		fmt.Fprintf(&sb, "%s/%d %s", tp.topic, tp.part, strings.Join(f.logs[tp], ","))
+	}
+	if len(tps) == 0 {
+		sb.WriteString("-")
 	}
 	sb.WriteString(" | cb ")
 	cbmu.Lock()
